@@ -4,3 +4,7 @@ import Tx3Proofs.C08
 #print axioms Tx3.insertRedeemer_keeps
 #print axioms Tx3.insertRedeemer_present
 #print axioms Tx3.C08_map_exact
+#print axioms Tx3.policies_sound
+#print axioms Tx3.C08_mint_sound
+#print axioms Tx3.C08_reward_sound
+#print axioms Tx3.C08_redeemers_sound
